@@ -469,7 +469,10 @@ func TestVerifC11(t *testing.T) {
 			for _, l := range strings.Split(all[strings.Index(all, "WARNING: DATA RACE"):], "\n") {
 				l = strings.TrimSpace(l)
 				if strings.HasPrefix(l, "github.com/tencent/goom") && !strings.Contains(l, "c11") {
-					raceAt = strings.SplitN(l, "(", 2)[0]
+					raceAt = l
+					if i := strings.LastIndex(l, "("); i > 0 {
+						raceAt = l[:i]
+					}
 					break
 				}
 			}
